@@ -37,7 +37,7 @@ def work(task):
   for i in range(shard, len(cs), nsh):
     c = cs[i]
     fam[c.family] = fam.get(c.family, 0) + 1
-    h.run_case(c, classify)
+    h.run_case(c, classify, prepared_rules=getattr(c, 'prepared', None))
   res = h.result(); h.close()
   for k, v in fam.items(): res['stats']['family_' + k] = v
   for v in res['viol']:
